@@ -2,7 +2,7 @@
 """Developer tool: run a batch and aggregate violations by signature."""
 import os, sys, json, collections
 os.environ.setdefault('PYTHONHASHSEED', '0')
-sys.path.insert(0, os.path.dirname(os.path.abspath(__file__))); sys.path.insert(0, '/repo')
+sys.path.insert(0, os.path.dirname(os.path.abspath(__file__))); sys.path.insert(0, os.environ.get('SIMDASSH_REPO', '/repo'))
 import multiprocessing as mp
 from concurrent.futures import ProcessPoolExecutor
 from simdassh import runner, props, sim
